@@ -288,6 +288,18 @@ topology('T6',
          lambda net: net['Z1'].element.Z != 0 and net['Ia'].element.I != 0 and net['Ib'].element.I != 0,
          props=('C01', 'C02', 'C03', 'C05'))
 
+# T8: T6 with MIXED-CASE identifiers: code-point order ('Ib' < 'Vb' < 'ia' < 'va') differs from case-insensitive order
+#     ('ia' < 'Ib', 'va' < 'Vb'), so two sites that order sources differently from each other attach values to the wrong source
+#     (seeded change C01-11: case-folding mappers + a right-hand side sorted by plain id, each harmless alone)
+topology('T8',
+         lambda g: dict(net=Network([Branch('0', 'a', elm.voltage_source('va', g.complex('V2'))),
+                                     Branch('b', 'a', elm.voltage_source('Vb', g.complex('V1'))),
+                                     Branch('b', '0', elm.impedance('Z1', g.complex('Z1'))),
+                                     Branch('b', '0', elm.current_source('ia', g.complex('Ib'))),
+                                     Branch('0', 'b', elm.current_source('Ib', g.complex('Ia')))], '0')),
+         lambda net: net['Z1'].element.Z != 0 and net['ia'].element.I != 0 and net['Ib'].element.I != 0,
+         props=('C01', 'C03'))
+
 # T7: lossy current source and lossy voltage source with BOTH terminals on non-reference nodes
 topology('T7',
          lambda g: dict(net=Network([Branch('1', '0', elm.resistor('R1', g.pos('R1'))),
